@@ -459,7 +459,7 @@ Definition resp_eqb (a b : resp) : bool :=
    /v1/refreshRoleRequestingCert (roleRequestingCert.go refreshRoleRequestingCertGenHandler,
    parseRefreshRoleCertGenParams): renewal of a role-requesting certificate by its holder.
 
-     checkAuth(w, r, AuthTypeIPCertificate)         [authenticate_ip refresh_required; ip_cert_admitted: the
+     checkAuth(w, r, AuthTypeIPCertificate)         [authenticate_ip refresh_required; ip_cert_accepted: the
                                                      CN must be an automation user — 403 otherwise, 500 if
                                                      the directory fails]
      r.Method != "POST" -> 405
@@ -488,7 +488,7 @@ Definition authenticate_ip (required : N) (cr : cred) : option (name * N) :=
 (* app.go getUsernameIfIPRestricted, inside checkAuth: the CN of an IP-restricted certificate must itself be an
    automation user (isAutomationUser: error -> 500, no -> 403 "Bad username for ip restricted cert") — a
    certificate whose CN is not (or no longer) a configured automation identity is no credential *)
-Definition ip_cert_admitted (c : cfg) (cr : cred) (dir : answer) : option bool :=
+Definition ip_cert_accepted (c : cfg) (cr : cred) (dir : answer) : option bool :=
   match cr with
   | IPCert u => is_automation_user c u dir
   | _ => Some true
@@ -500,7 +500,7 @@ Definition refresh_step (c : cfg) (s : store) (r : request) : store * resp * opt
   match authenticate_ip refresh_required (resolve c (r_cred r)) with
   | None => (s, RDenied, None)
   | Some (actor, _) =>
-      match ip_cert_admitted c (resolve c (r_cred r)) (r_dir_target r) with
+      match ip_cert_accepted c (resolve c (r_cred r)) (r_dir_target r) with
       | None => (s, RErr, None)
       | Some false => (s, RDenied, None)
       | Some true =>
